@@ -79,6 +79,7 @@ func init() {
 		c.Explain = "Agreement of the tables the storage codecs are generated from, decided with go/types and SSA: (projection) every partial-decoding projection names each typed field with the CBOR key and (up to one pointer level) the type of the full struct it projects, and the skeleton's key set equals the source's key set; (extractors) projections are mapped one-to-one (the AllMapped result is returned unfiltered) from the fields they claim; (blob-copy) the only extractor that hands out the raw block blob copies it out of database-owned memory; " +
 			"(registry) every concrete Transaction / ClassDefinition / TrieNode type is registered with the encoder exactly once; (sections) index slices are paired with their own section of the blob and only the two section helpers slice it; (codec-agreement) per bucket, the value encoder of every Put and the decoder of every Get in core's accessors belong to one codec family. Not decided: round-trip identity of values, offsets inside the blob, nil-vs-empty."
 		c07DecoderLimits(c)
+		c07NoPooledEscape(c)
 		core := p.pkg("core").Types.Scope()
 		disc := p.lookupType("core", "discardedCBOR")
 		// ---- projection ----
@@ -655,5 +656,150 @@ func c07DecoderLimits(c *Ctx) {
 		default:
 			c.ok("decoder-limits", "encoder DecOptions."+fld, p.Pos(fnPos(f)), fmt.Sprintf("%s = %d", fld, v))
 		}
+	}
+}
+
+// c07NoPooledEscape: (no-pooled-escape) bytes that end up in a stored value never alias a buffer that goes back to a
+// sync.Pool. A function that releases an object's buffer to a pool — directly or through a helper method that Puts a buffer
+// reached from its receiver, also when deferred — must not return a value that contains `Bytes()` of that same buffer
+// (followed through sub-slices, struct literals and local cells; a copy — bytes.Clone, append to a fresh slice, string
+// conversion — ends the aliasing). Seeded change C07-K pools the encode buffer of the block blob and `defer`s its release:
+// BlockTransactions.Data of one block is overwritten by the next block that is encoded.
+func c07NoPooledEscape(c *Ctx) {
+	p := c.P
+	// releasers: methods/functions that Put a buffer reached from their first parameter
+	isPoolPut := func(s Site) bool {
+		return s.Callee != nil && s.Callee.Name() == "Put" && s.Callee.Signature.Recv() != nil && strings.HasSuffix(s.Callee.Signature.Recv().Type().String(), "sync.Pool")
+	}
+	releasers := map[*ssa.Function]bool{}
+	for _, fn := range p.sortedFuncs() {
+		if len(fn.Params) == 0 || fn.Origin() != nil {
+			continue
+		}
+		for _, s := range sitesOf(fn) {
+			if !isPoolPut(s) {
+				continue
+			}
+			a := s.Args()
+			if len(a) < 2 {
+				continue
+			}
+			if backSlice(a[1])[ssa.Value(fn.Params[0])] {
+				releasers[fn] = true
+			}
+		}
+	}
+	roots := func(v ssa.Value) map[ssa.Value]bool {
+		out := map[ssa.Value]bool{}
+		for x := range backSlice(v) {
+			switch x.(type) {
+			case *ssa.Alloc, *ssa.Call:
+				out[x] = true
+			}
+		}
+		return out
+	}
+	n := 0
+	for _, fn := range p.sortedFuncs() {
+		pr := pkgRelOf(fn)
+		if fn.Origin() != nil {
+			continue
+		}
+		if !(pr == "core" || strings.HasPrefix(pr, "core/indexed") || pr == "encoder" || pr == "db" || strings.HasPrefix(pr, "db/")) || strings.HasSuffix(p.Pos(fnPos(fn)), "_test.go") {
+			continue
+		}
+		released := map[ssa.Value]bool{}
+		for _, s := range sitesOf(fn) {
+			a := s.Args()
+			switch {
+			case isPoolPut(s) && len(a) >= 2:
+				for k := range roots(a[1]) {
+					released[k] = true
+				}
+			case s.Callee != nil && (releasers[s.Callee] || s.Callee.Origin() != nil && releasers[s.Callee.Origin()]) && len(a) >= 1:
+				for k := range roots(a[0]) {
+					released[k] = true
+				}
+			}
+		}
+		if len(released) == 0 {
+			continue
+		}
+		n++
+		bad := ""
+		seen := map[ssa.Value]bool{}
+		var alias func(v ssa.Value, d int) bool
+		alias = func(v ssa.Value, d int) bool {
+			if v == nil || seen[v] || d > 30 {
+				return false
+			}
+			seen[v] = true
+			switch x := v.(type) {
+			case *ssa.Phi:
+				for _, e := range x.Edges {
+					if alias(e, d+1) {
+						return true
+					}
+				}
+			case *ssa.Slice:
+				return alias(x.X, d+1)
+			case *ssa.ChangeType:
+				return alias(x.X, d+1)
+			case *ssa.MakeInterface:
+				return alias(x.X, d+1)
+			case *ssa.UnOp:
+				return alias(x.X, d+1)
+			case *ssa.FieldAddr:
+				return alias(x.X, d+1)
+			case *ssa.Field:
+				return alias(x.X, d+1)
+			case *ssa.Alloc:
+				var cell func(a ssa.Value, dd int) bool
+				cell = func(a ssa.Value, dd int) bool {
+					refs := a.Referrers()
+					if refs == nil || dd > 3 {
+						return false
+					}
+					for _, r := range *refs {
+						switch y := r.(type) {
+						case *ssa.Store:
+							if y.Addr == a && alias(y.Val, d+1) {
+								return true
+							}
+						case *ssa.FieldAddr:
+							if cell(y, dd+1) {
+								return true
+							}
+						}
+					}
+					return false
+				}
+				return cell(x, 0)
+			case *ssa.Call:
+				cal := x.Call.StaticCallee()
+				if cal != nil && cal.Name() == "Bytes" && len(x.Call.Args) > 0 {
+					for k := range roots(x.Call.Args[0]) {
+						if released[k] {
+							return true
+						}
+					}
+				}
+				if cal != nil && cal.Pkg != nil && cal.Pkg.Pkg.Path() == "bytes" && strings.HasPrefix(cal.Name(), "Trim") && len(x.Call.Args) > 0 {
+					return alias(x.Call.Args[0], d+1)
+				}
+			}
+			return false
+		}
+		for _, ret := range returnsOf(fn) {
+			for _, r := range ret.Results {
+				if alias(r, 0) {
+					bad = p.Pos(posOf(ret.Ret, fn))
+				}
+			}
+		}
+		c.check(bad == "", "no-pooled-escape", qname(fn), p.Pos(fnPos(fn)), "no returned value aliases a buffer that goes back to a pool", "the function returns bytes of a buffer that it hands back to a sync.Pool ("+bad+"): the next value encoded through the pool overwrites them — a block blob built before the previous one was persisted (or by a concurrent writer) is stored with another block's bytes")
+	}
+	if n == 0 {
+		c.ok("no-pooled-escape", "core, core/indexed, encoder, db", "", "no function of the storage codecs returns a buffer to a sync.Pool")
 	}
 }
